@@ -229,6 +229,12 @@ def request_on_rope(project, req, resource, offset):
         return LocalToField(project, resource, offset).get_changes()
     if kind == "uf":
         return UseFunction(project, resource, offset).get_changes()
+    if kind == "mm":      # MoveMethod family (part of property C05, driven by bind/_movemethod.py)
+        from rope.refactor import move
+        mover = move.create_move(project, resource, offset)
+        if not isinstance(mover, move.MoveMethod):
+            raise TypeError("create_move gave %s for a method" % type(mover).__name__)
+        return mover.get_changes(req["attr"], req["new"])
     raise ValueError(kind)
 
 
